@@ -59,7 +59,8 @@ C18Run(d, cfg, gen) ==
   IN   (IF gen.exit # 0 THEN {VG("C18.exit", d.pkg)} ELSE {})
   \cup {VG("C18.none_for_poisoned", T) : T \in {U \in Poisoned(d, cfg) : ThreeOf(U) \cap got # {}}}
   \cup {VG("C18.others_intact", T) : T \in {U \in Buildable(d, cfg) : ~(ThreeOf(U) \subseteq got)}}
-  \cup {VG("C18.logged", T) : T \in {U \in Poisoned(d, cfg) : ~\E i \in DOMAIN gen.warned : gen.warned[i] = U}}
+  \* a log line above info level names the type (gen.named: whatever the wording; gen.warned: the current wording)
+  \cup {VG("C18.logged", T) : T \in {U \in Poisoned(d, cfg) : ~\E i \in DOMAIN gen.named : gen.named[i] = U}}
   \cup (IF gen.compile # "" THEN {VG("C18.compiles", d.pkg)} ELSE {})
 
 \* C16: failure cases
